@@ -1,23 +1,21 @@
 /-
-  C02 at the world level: the cached `n_valid` (`MapObj.cache`, mirroring `_n_valid`) of a map
-  that owns its storage is never stale, along any protocol history.
+  C02 at the world level: the cached `n_valid` (`MapObj.cache`, mirroring `_n_valid`) is never
+  stale, along any protocol history, for owning maps and for views.
 
-  `opNvalid` answers from the cache when it holds `some n`; every operation that stores a map
-  stores it with an empty cache (`cache := none`), except `opNvalid` itself, which stores the
-  count of the very storage it stores.  Writing through a view resets the PARENT's cache
-  (`writeBackView … cache := none`).  So `World.CachePool` (every owning entry's cache, if any, is
-  the count of its current storage) is inductive on its own; `World.Good2` adds it to
+  `opNvalid` answers from the cache when it holds `some n`.  Every operation that stores a map
+  stores it with an empty cache (`cache := none`), except `opNvalid` itself, which stores — for an
+  OWNING map only — the count of the very storage it stores.  Writing through a view resets the
+  parent's cache (`writeBackView … cache := none`), and a view descriptor never holds a count.
+  So `World.CachePool` (every owning entry's cache, if any, is the count of its current storage;
+  every view descriptor's cache is empty) is inductive on its own; `World.Good2` adds it to
   `World.Good` (Lemmas/WFWorld.lean).
 
-  FINDING (`exStaleView`, `exStaleView2` at the end): a VIEW descriptor carries its own cache,
-  which nothing resets when the parent (or another view of the same field) is written:
+  HISTORY / FINDING.  In the first version of the model (and in the real library) a VIEW carried
+  its own cache, which nothing reset when the parent — or another view of the same field — was
+  written:
       single m field=1 r=v / nvalid v -> 1 / upd m pix=6 vals=r4;7 / nvalid v -> 1   (2 valid cells)
-  This mirrors the real library, where the single-field view object keeps its own `_n_valid`.
-  The answer theorem is therefore stated for a looked-up map whose cache is fresh
-  (`nvalid_answer`); freshness is proved for every owning map (`CachePool`), and for a view in
-  the cases where it is true: an empty cache, right after `nvalid` on the view
-  (`CacheFresh.after_nvalid`), and as long as neither the descriptor nor the parent entry
-  changes (`World.get?_congr`).
+  The library was repaired (a view never caches the count) and `opNvalid` mirrors it; the two
+  histories are kept at the end as regression examples (`exStaleView`, `exStaleView2`).
 -/
 import HealSparse.Lemmas.WFWorld
 namespace HS
@@ -47,51 +45,79 @@ theorem MapObj.cacheFresh_counted (m : MapObj) :
     ({ m with cache := some (nValid m.vc m.st) } : MapObj).CacheFresh := by
   intro n hn; cases hn; rfl
 
-/-- every owning pool entry has a fresh cache -/
-def World.CachePool (w : World) : Prop := ∀ e ∈ w.pool, e.2.view = none → e.2.CacheFresh
+/-- every owning pool entry has a fresh cache; a view descriptor holds no count -/
+def World.CachePool (w : World) : Prop :=
+  (∀ e ∈ w.pool, e.2.view = none → e.2.CacheFresh) ∧ (∀ e ∈ w.pool, e.2.view ≠ none → e.2.cache = none)
 
 /-- the world invariant of Lemmas/WFWorld.lean together with the cache clause -/
 def World.Good2 (w : World) : Prop := w.Good ∧ w.CachePool
 
-theorem World.cachePool_empty : ({} : World).CachePool := fun _ he => nomatch he
+theorem World.cachePool_empty : ({} : World).CachePool := by
+  refine ⟨?_, ?_⟩ <;> intro e he <;> cases he
 
-/-! ### storing -/
+/-! ### storing and looking up -/
 
 theorem World.CachePool.bind {w : World} (hw : w.CachePool) (r : String) {m : MapObj}
     (hm : m.CacheFresh) : (w.bind r m).CachePool := by
-  intro e he hev
-  rcases List.mem_cons.1 he with rfl | he
-  · exact hm
-  · exact hw e (List.mem_filter.1 he).1 hev
+  refine ⟨?_, ?_⟩
+  · intro e he hev
+    rcases List.mem_cons.1 he with rfl | he
+    · exact hm
+    · exact hw.1 e (List.mem_filter.1 he).1 hev
+  · intro e he hev
+    rcases List.mem_cons.1 he with rfl | he
+    · exact absurd rfl hev
+    · exact hw.2 e (List.mem_filter.1 he).1 hev
 
-/-- `World.put`, both branches: a plain store keeps the map's own cache; a store through a view
-    name resets the parent's cache (and the new descriptor is not an owning entry) -/
+/-- `World.put` of a map with an empty cache, both branches: a store through a view name also
+    resets the parent's cache, and the descriptor it re-stores holds no count -/
 theorem World.CachePool.put {w : World} (hw : w.CachePool) (n : String) {m : MapObj}
-    (hm : m.CacheFresh) : (w.put n m).CachePool := by
+    (hm : m.cache = none) : (w.put n m).CachePool := by
   unfold World.put
   split
   · rename_i pn i x h1 h2
     split
-    · intro e he hev
-      rcases List.mem_cons.1 he with rfl | he
-      · rw [show ({ m with st := ⟨#[], #[]⟩ } : MapObj).view = m.view from rfl, h2] at hev
-        cases hev
-      · rcases List.mem_cons.1 he with rfl | he
-        · exact MapObj.cacheFresh_of_none rfl
-        · exact hw e (List.mem_filter.1 he).1 hev
+    · rename_i p hp
+      refine ⟨?_, ?_⟩
+      · intro e he hev
+        rcases List.mem_cons.1 he with rfl | he
+        · rw [show ({ m with st := ⟨#[], #[]⟩ } : MapObj).view = m.view from rfl, h2] at hev
+          cases hev
+        · rcases List.mem_cons.1 he with rfl | he
+          · exact MapObj.cacheFresh_of_none rfl
+          · exact hw.1 e (List.mem_filter.1 he).1 hev
+      · intro e he hev
+        rcases List.mem_cons.1 he with rfl | he
+        · exact hm
+        · rcases List.mem_cons.1 he with rfl | he
+          · rfl
+          · exact hw.2 e (List.mem_filter.1 he).1 hev
     · exact hw
-  · intro e he hev
-    rcases List.mem_cons.1 he with rfl | he
-    · exact hm
-    · exact hw e (List.mem_filter.1 he).1 hev
+  · exact hw.bind n (MapObj.cacheFresh_of_none hm)
 
 theorem World.CachePool.register {w : World} (hw : w.CachePool) (r : String) {d : MapObj}
-    (hv : d.view ≠ none) :
+    (hv : d.view ≠ none) (hc : d.cache = none) :
     ({ w with pool := (r, d) :: w.pool.filter (·.1 != r) } : World).CachePool := by
-  intro e he hev
-  rcases List.mem_cons.1 he with rfl | he
-  · exact absurd hev hv
-  · exact hw e (List.mem_filter.1 he).1 hev
+  refine ⟨?_, ?_⟩
+  · intro e he hev
+    rcases List.mem_cons.1 he with rfl | he
+    · exact absurd hev hv
+    · exact hw.1 e (List.mem_filter.1 he).1 hev
+  · intro e he hev
+    rcases List.mem_cons.1 he with rfl | he
+    · exact hc
+    · exact hw.2 e (List.mem_filter.1 he).1 hev
+
+/-- **whatever `World.get?` answers has a fresh cache**: an owning entry by the invariant, a view
+    because its descriptor holds no count -/
+theorem World.CachePool.get {w : World} (hw : w.CachePool) {n : String} {v : MapObj}
+    (h : w.get? n = some v) : v.CacheFresh := by
+  rcases World.get?_cases h with ⟨hr, hv⟩ | ⟨d, pn, i, p, hd, hdv, hp, hs, hm, _, _⟩
+  · obtain ⟨e, he, _, rfl⟩ := World.raw?_mem hr
+    exact hw.1 e he hv
+  · obtain ⟨e, he, _, rfl⟩ := World.raw?_mem hd
+    obtain ⟨dt, s, _, _, _, _, _, _, h6, _⟩ := materializeView_ok hm
+    exact MapObj.cacheFresh_of_none (h6.trans (hw.2 e he (by rw [hdv]; exact fun h => nomatch h)))
 
 theorem cache_withMap {w : World} {a : Args} {k : MapObj → World × String} (hw : w.CachePool)
     (hk : ∀ n m, a.pos.headD "" = n → w.get? n = some m → (k m).1.CachePool) :
@@ -108,48 +134,48 @@ theorem cache_withMap {w : World} {a : Args} {k : MapObj → World × String} (h
 /-! ### the API results that are stored as they come have an empty cache -/
 
 theorem cacheNone_apiMakeEmpty {co so : Nat} {kind : Kind} {sent : Option Val} {P : List Nat} {m : MapObj}
-    (h : apiMakeEmpty co so kind sent P = .ok m) : m.CacheFresh :=
-  MapObj.cacheFresh_of_none (WFApi.apiMakeEmpty_ok h).2.2.2.2.2.2.1
+    (h : apiMakeEmpty co so kind sent P = .ok m) : m.cache = none :=
+  (WFApi.apiMakeEmpty_ok h).2.2.2.2.2.2.1
 
 theorem cacheNone_apiUpdate {m m' : MapObj} {op : String} {pix : List Nat} {vals : Option (List Val)}
-    {single : Bool} {ru : Option Bool} (h : apiUpdate m op pix vals single ru = .ok m') : m'.CacheFresh :=
-  MapObj.cacheFresh_of_none (WFApi.apiUpdate_ok h).2.2.2.2.2.1
+    {single : Bool} {ru : Option Bool} (h : apiUpdate m op pix vals single ru = .ok m') : m'.cache = none :=
+  (WFApi.apiUpdate_ok h).2.2.2.2.2.1
 
 theorem cacheNone_apiUpdateRanges {m m' : MapObj} {op : String} {R : List (Nat × Nat)} {val : Option Val}
-    {sl : Bool} (h : apiUpdateRanges m op R val sl = .ok m') : m'.CacheFresh :=
-  MapObj.cacheFresh_of_none (WFApi.apiUpdateRanges_ok h).2.2.2.2.2.1
+    {sl : Bool} (h : apiUpdateRanges m op R val sl = .ok m') : m'.cache = none :=
+  (WFApi.apiUpdateRanges_ok h).2.2.2.2.2.1
 
 theorem cacheNone_apiSetBits {m m' : MapObj} {pix bits : List Nat} {clear : Bool}
-    (h : apiSetBits m pix bits clear = .ok m') : m'.CacheFresh := by
+    (h : apiSetBits m pix bits clear = .ok m') : m'.cache = none := by
   obtain ⟨op, vals, hu⟩ := WFApi.apiSetBits_ok h
   exact cacheNone_apiUpdate hu
 
 theorem cacheNone_apiAstype {m m' : MapObj} {dst : DT} {sentinel : Option Val}
-    (h : apiAstype m dst sentinel = .ok m') : m'.CacheFresh :=
-  MapObj.cacheFresh_of_none (WFApi.apiAstype_ok h).2.2.2.2.2.2.1
+    (h : apiAstype m dst sentinel = .ok m') : m'.cache = none :=
+  (WFApi.apiAstype_ok h).2.2.2.2.2.2.1
 
-theorem cacheNone_apiAsBitPacked {m m' : MapObj} (h : apiAsBitPacked m = .ok m') : m'.CacheFresh :=
-  MapObj.cacheFresh_of_none (WFApi.apiAsBitPacked_ok h).2.2.2.1
+theorem cacheNone_apiAsBitPacked {m m' : MapObj} (h : apiAsBitPacked m = .ok m') : m'.cache = none :=
+  (WFApi.apiAsBitPacked_ok h).2.2.2.1
 
 theorem cacheNone_apiMultiOp {row : OpRow} {maps : List MapObj} {m' : MapObj}
-    (h : apiMultiOp row maps = .ok m') : m'.CacheFresh := by
+    (h : apiMultiOp row maps = .ok m') : m'.cache = none := by
   obtain ⟨first, rest, _, _, _, _, hc, _⟩ := WFApi.apiMultiOp_ok h
-  exact MapObj.cacheFresh_of_none hc
+  exact hc
 
 theorem cacheNone_apiGetSingleCopy {m m' : MapObj} {i : Nat} {sentinel : Option Val}
-    (h : apiGetSingleCopy m i sentinel = .ok m') : m'.CacheFresh := by
+    (h : apiGetSingleCopy m i sentinel = .ok m') : m'.cache = none := by
   obtain ⟨dt, _, _, _, _, _, hc, _⟩ := WFApi.apiGetSingleCopy_ok h
-  exact MapObj.cacheFresh_of_none hc
+  exact hc
 
 theorem cacheNone_apiRead {f : FileObj} {pixels : Option (List Nat)} {m : MapObj}
-    (h : apiRead f pixels = .ok m) : m.CacheFresh := by
+    (h : apiRead f pixels = .ok m) : m.cache = none := by
   obtain ⟨kind, _, _, _, _, _, hc, _⟩ := apiRead_ok h
-  exact MapObj.cacheFresh_of_none hc
+  exact hc
 
 theorem cacheNone_apiDegradeOnRead {f : FileObj} {ordOut : Nat} {red : String}
     {pixels : Option (List Nat)} {wf : Option FileObj} {m : MapObj}
-    (h : apiDegradeOnRead f ordOut red pixels wf = .ok m) : m.CacheFresh :=
-  MapObj.cacheFresh_of_none (apiDegradeOnRead_ok h).2.2.2.2.1
+    (h : apiDegradeOnRead f ordOut red pixels wf = .ok m) : m.cache = none :=
+  (apiDegradeOnRead_ok h).2.2.2.2.1
 
 theorem cacheNone_apiDegradeCore (m : MapObj) (ordOut : Nat) (red : String) (w : Option MapObj) :
     OkP (fun m' => m'.cache = none) (apiDegradeCore m ordOut red w) := by
@@ -158,8 +184,7 @@ theorem cacheNone_apiDegradeCore (m : MapObj) (ordOut : Nat) (red : String) (w :
   all_goals rfl
 
 theorem cacheNone_apiDegrade {m m' : MapObj} {ordOut : Nat} {red : String} {w : Option MapObj}
-    (h : apiDegrade m ordOut red w = .ok m') : m'.CacheFresh := by
-  apply MapObj.cacheFresh_of_none
+    (h : apiDegrade m ordOut red w = .ok m') : m'.cache = none := by
   revert m'
   show OkP (fun m' => m'.cache = none) (apiDegrade m ordOut red w)
   unfold apiDegrade
@@ -180,8 +205,7 @@ theorem cacheNone_apiDegrade {m m' : MapObj} {ordOut : Nat} {red : String} {w : 
   · exact cacheNone_apiDegradeCore m ordOut red w
 
 theorem cacheNone_apiUpgrade {m m' : MapObj} {ordOut : Nat} (h : apiUpgrade m ordOut = .ok m') :
-    m'.CacheFresh := by
-  apply MapObj.cacheFresh_of_none
+    m'.cache = none := by
   revert m'
   show OkP (fun m' => m'.cache = none) (apiUpgrade m ordOut)
   unfold apiUpgrade
@@ -190,8 +214,7 @@ theorem cacheNone_apiUpgrade {m m' : MapObj} {ordOut : Nat} (h : apiUpgrade m or
 
 theorem cacheNone_apiFromHealpix {covord spord : Nat} {dt : DT} {sentinel : Option Val} {hp : List Val}
     {b : Bool} {m' : MapObj} (h : apiFromHealpix covord spord dt sentinel hp b = .ok m') :
-    m'.CacheFresh := by
-  apply MapObj.cacheFresh_of_none
+    m'.cache = none := by
   revert m'
   show OkP (fun m' => m'.cache = none) (apiFromHealpix covord spord dt sentinel hp b)
   unfold apiFromHealpix
@@ -200,5 +223,486 @@ theorem cacheNone_apiFromHealpix {covord spord : Nat} {dt : DT} {sentinel : Opti
   intro sent _
   apply OkP.of_pure
   rfl
+
+/-! ### the operations of Model/Dispatch.lean -/
+
+set_option hygiene false in
+/-- close a leaf `(w.bind r m').CachePool` / `(w.put n m').CachePool`: the stored map has an empty
+    cache, literally or by the API lemma of the call that produced it -/
+macro "cache_leaf" : tactic => `(tactic| first
+  | exact hw
+  | exact hw.bind _ (MapObj.cacheFresh_of_none rfl)
+  | exact hw.put _ rfl
+  | exact hw.register _ (fun h => nomatch h) rfl
+  | exact hw.put _ (cacheNone_apiUpdate ‹_›)
+  | exact hw.put _ (cacheNone_apiUpdateRanges ‹_›)
+  | exact hw.put _ (cacheNone_apiSetBits ‹_›)
+  | exact hw.bind _ (MapObj.cacheFresh_of_none (cacheNone_apiMakeEmpty ‹_›))
+  | exact hw.bind _ (MapObj.cacheFresh_of_none (cacheNone_apiAstype ‹_›))
+  | exact hw.bind _ (MapObj.cacheFresh_of_none (cacheNone_apiAsBitPacked ‹_›))
+  | exact hw.bind _ (MapObj.cacheFresh_of_none (cacheNone_apiMultiOp ‹_›))
+  | exact hw.bind _ (MapObj.cacheFresh_of_none (cacheNone_apiGetSingleCopy ‹_›))
+  | exact hw.bind _ (MapObj.cacheFresh_of_none (cacheNone_apiDegrade ‹_›))
+  | exact hw.bind _ (MapObj.cacheFresh_of_none (cacheNone_apiUpgrade ‹_›))
+  | exact hw.bind _ (MapObj.cacheFresh_of_none (cacheNone_apiRead ‹_›))
+  | exact hw.bind _ (MapObj.cacheFresh_of_none (cacheNone_apiDegradeOnRead ‹_›))
+  | exact hw.bind _ (MapObj.cacheFresh_of_none (cacheNone_apiFromHealpix ‹_›)))
+
+theorem CachePool.opCfg {w : World} (hw : w.CachePool) (a : Args) : (HS.opCfg w a).1.CachePool := by
+  unfold HS.opCfg
+  op_split
+  all_goals cache_leaf
+
+theorem CachePool.opMop {w : World} (hw : w.CachePool) (a : Args) : (HS.opMop w a).1.CachePool := by
+  unfold HS.opMop
+  op_split
+  all_goals cache_leaf
+
+theorem CachePool.opMocread {w : World} (hw : w.CachePool) (a : Args) : (HS.opMocread w a).1.CachePool := by
+  unfold HS.opMocread
+  op_split
+  all_goals cache_leaf
+
+theorem CachePool.opRead {w : World} (hw : w.CachePool) (a : Args) : (HS.opRead w a).1.CachePool := by
+  unfold HS.opRead
+  op_split
+  all_goals cache_leaf
+
+theorem CachePool.opDor {w : World} (hw : w.CachePool) (a : Args) : (HS.opDor w a).1.CachePool := by
+  unfold HS.opDor
+  op_split
+  all_goals cache_leaf
+
+theorem CachePool.opFromhp {w : World} (hw : w.CachePool) (a : Args) : (HS.opFromhp w a).1.CachePool := by
+  unfold HS.opFromhp
+  op_split
+  all_goals cache_leaf
+
+theorem CachePool.opHpxread {w : World} (hw : w.CachePool) (a : Args) : (HS.opHpxread w a).1.CachePool := by
+  unfold HS.opHpxread
+  op_split
+  all_goals cache_leaf
+
+theorem CachePool.opCovread {w : World} (hw : w.CachePool) (a : Args) : (HS.opCovread w a).1.CachePool := by
+  unfold HS.opCovread
+  op_split
+  all_goals cache_leaf
+
+theorem CachePool.opFitsraw {w : World} (hw : w.CachePool) (a : Args) : (HS.opFitsraw w a).1.CachePool := by
+  unfold HS.opFitsraw
+  op_split
+  all_goals cache_leaf
+
+theorem CachePool.opCat {w : World} (hw : w.CachePool) (a : Args) : (HS.opCat w a).1.CachePool := by
+  unfold HS.opCat
+  op_split
+  all_goals cache_leaf
+
+theorem CachePool.opHpximplicit {w : World} (hw : w.CachePool) (a : Args) : (HS.opHpximplicit w a).1.CachePool := by
+  unfold HS.opHpximplicit
+  op_split
+  all_goals cache_leaf
+
+theorem CachePool.opRand {w : World} (hw : w.CachePool) (a : Args) : (HS.opRand w a).1.CachePool := by
+  unfold HS.opRand
+  op_split
+  all_goals cache_leaf
+
+theorem CachePool.opUpd {w : World} (hw : w.CachePool) (a : Args) : (HS.opUpd w a).1.CachePool := by
+  unfold HS.opUpd
+  refine cache_withMap hw fun n m hn hget => ?_
+  op_split
+  all_goals cache_leaf
+
+theorem CachePool.opUpdr {w : World} (hw : w.CachePool) (a : Args) : (HS.opUpdr w a).1.CachePool := by
+  unfold HS.opUpdr
+  refine cache_withMap hw fun n m hn hget => ?_
+  op_split
+  all_goals cache_leaf
+
+theorem CachePool.opMask {w : World} (hw : w.CachePool) (a : Args) : (HS.opMask w a).1.CachePool := by
+  unfold HS.opMask
+  refine cache_withMap hw fun n m hn hget => ?_
+  op_split
+  all_goals cache_leaf
+
+theorem CachePool.opAstype {w : World} (hw : w.CachePool) (a : Args) : (HS.opAstype w a).1.CachePool := by
+  unfold HS.opAstype
+  refine cache_withMap hw fun n m hn hget => ?_
+  op_split
+  all_goals cache_leaf
+
+theorem CachePool.opPack {w : World} (hw : w.CachePool) (a : Args) : (HS.opPack w a).1.CachePool := by
+  unfold HS.opPack
+  refine cache_withMap hw fun n m hn hget => ?_
+  op_split
+  all_goals cache_leaf
+
+theorem CachePool.opBop {w : World} (hw : w.CachePool) (a : Args) : (HS.opBop w a).1.CachePool := by
+  unfold HS.opBop
+  refine cache_withMap hw fun n m hn hget => ?_
+  op_split
+  all_goals cache_leaf
+
+theorem CachePool.opInv {w : World} (hw : w.CachePool) (a : Args) : (HS.opInv w a).1.CachePool := by
+  unfold HS.opInv
+  refine cache_withMap hw fun n m hn hget => ?_
+  op_split
+  all_goals cache_leaf
+
+theorem CachePool.opBits {w : World} (hw : w.CachePool) (a : Args) : (HS.opBits w a).1.CachePool := by
+  unfold HS.opBits
+  refine cache_withMap hw fun n m hn hget => ?_
+  op_split
+  all_goals cache_leaf
+
+theorem CachePool.opCopy {w : World} (hw : w.CachePool) (a : Args) : (HS.opCopy w a).1.CachePool := by
+  unfold HS.opCopy
+  refine cache_withMap hw fun n m hn hget => ?_
+  op_split
+  all_goals cache_leaf
+
+theorem CachePool.opDeg {w : World} (hw : w.CachePool) (a : Args) : (HS.opDeg w a).1.CachePool := by
+  unfold HS.opDeg
+  refine cache_withMap hw fun n m hn hget => ?_
+  op_split
+  all_goals cache_leaf
+
+theorem CachePool.opUpg {w : World} (hw : w.CachePool) (a : Args) : (HS.opUpg w a).1.CachePool := by
+  unfold HS.opUpg
+  refine cache_withMap hw fun n m hn hget => ?_
+  op_split
+  all_goals cache_leaf
+
+theorem CachePool.opSingle {w : World} (hw : w.CachePool) (a : Args) : (HS.opSingle w a).1.CachePool := by
+  unfold HS.opSingle
+  refine cache_withMap hw fun n m hn hget => ?_
+  op_split
+  all_goals cache_leaf
+
+theorem CachePool.opScov {w : World} (hw : w.CachePool) (a : Args) : (HS.opScov w a).1.CachePool := by
+  unfold HS.opScov
+  refine cache_withMap hw fun n m hn hget => ?_
+  op_split
+  all_goals cache_leaf
+
+theorem CachePool.opSet {w : World} (hw : w.CachePool) (a : Args) : (HS.opSet w a).1.CachePool := by
+  unfold HS.opSet
+  refine cache_withMap hw fun n m hn hget => ?_
+  op_split
+  all_goals cache_leaf
+
+theorem CachePool.opFracdet {w : World} (hw : w.CachePool) (a : Args) : (HS.opFracdet w a).1.CachePool := by
+  unfold HS.opFracdet
+  refine cache_withMap hw fun n m hn hget => ?_
+  op_split
+  all_goals cache_leaf
+
+theorem CachePool.opChk {w : World} (hw : w.CachePool) (a : Args) : (HS.opChk w a).1.CachePool := by
+  unfold HS.opChk
+  refine cache_withMap hw fun n m hn hget => ?_
+  op_split
+  all_goals cache_leaf
+
+theorem CachePool.opInfo {w : World} (hw : w.CachePool) (a : Args) : (HS.opInfo w a).1.CachePool := by
+  unfold HS.opInfo
+  refine cache_withMap hw fun n m hn hget => ?_
+  op_split
+  all_goals cache_leaf
+
+theorem CachePool.opMoc {w : World} (hw : w.CachePool) (a : Args) : (HS.opMoc w a).1.CachePool := by
+  unfold HS.opMoc
+  refine cache_withMap hw fun n m hn hget => ?_
+  op_split
+  all_goals cache_leaf
+
+theorem CachePool.opMeta {w : World} (hw : w.CachePool) (a : Args) : (HS.opMeta w a).1.CachePool := by
+  unfold HS.opMeta
+  refine cache_withMap hw fun n m hn hget => ?_
+  op_split
+  all_goals cache_leaf
+
+theorem CachePool.opGetmeta {w : World} (hw : w.CachePool) (a : Args) : (HS.opGetmeta w a).1.CachePool := by
+  unfold HS.opGetmeta
+  refine cache_withMap hw fun n m hn hget => ?_
+  op_split
+  all_goals cache_leaf
+
+theorem CachePool.opWrite {w : World} (hw : w.CachePool) (a : Args) : (HS.opWrite w a).1.CachePool := by
+  unfold HS.opWrite
+  refine cache_withMap hw fun n m hn hget => ?_
+  op_split
+  all_goals cache_leaf
+
+theorem CachePool.opGenhp {w : World} (hw : w.CachePool) (a : Args) : (HS.opGenhp w a).1.CachePool := by
+  unfold HS.opGenhp
+  refine cache_withMap hw fun n m hn hget => ?_
+  op_split
+  all_goals cache_leaf
+
+theorem CachePool.opInterp {w : World} (hw : w.CachePool) (a : Args) : (HS.opInterp w a).1.CachePool := by
+  unfold HS.opInterp
+  refine cache_withMap hw fun n m hn hget => ?_
+  op_split
+  all_goals cache_leaf
+
+theorem CachePool.opHpxwrite {w : World} (hw : w.CachePool) (a : Args) : (HS.opHpxwrite w a).1.CachePool := by
+  unfold HS.opHpxwrite
+  refine cache_withMap hw fun n m hn hget => ?_
+  op_split
+  all_goals cache_leaf
+
+theorem CachePool.opVals {w : World} (hw : w.CachePool) (a : Args) : (HS.opVals w a).1.CachePool := by
+  unfold HS.opVals
+  refine cache_withMap hw fun n m hn hget => ?_
+  op_split
+  all_goals cache_leaf
+
+theorem CachePool.opGet {w : World} (hw : w.CachePool) (a : Args) : (HS.opGet w a).1.CachePool := by
+  unfold HS.opGet
+  refine cache_withMap hw fun n m hn hget => ?_
+  op_split
+  all_goals cache_leaf
+
+theorem CachePool.opValid {w : World} (hw : w.CachePool) (a : Args) : (HS.opValid w a).1.CachePool := by
+  unfold HS.opValid
+  refine cache_withMap hw fun n m hn hget => ?_
+  op_split
+  all_goals cache_leaf
+
+theorem CachePool.opCovmap {w : World} (hw : w.CachePool) (a : Args) : (HS.opCovmap w a).1.CachePool := by
+  unfold HS.opCovmap
+  refine cache_withMap hw fun n m hn hget => ?_
+  op_split
+  all_goals cache_leaf
+
+theorem CachePool.opVpsc {w : World} (hw : w.CachePool) (a : Args) : (HS.opVpsc w a).1.CachePool := by
+  unfold HS.opVpsc
+  refine cache_withMap hw fun n m hn hget => ?_
+  op_split
+  all_goals cache_leaf
+
+theorem CachePool.opCovmask {w : World} (hw : w.CachePool) (a : Args) : (HS.opCovmask w a).1.CachePool := by
+  unfold HS.opCovmask
+  refine cache_withMap hw fun n m hn hget => ?_
+  op_split
+  all_goals cache_leaf
+
+theorem CachePool.opDump {w : World} (hw : w.CachePool) (a : Args) : (HS.opDump w a).1.CachePool := by
+  unfold HS.opDump
+  refine cache_withMap hw fun n m hn hget => ?_
+  op_split
+  all_goals cache_leaf
+
+theorem CachePool.opState {w : World} (hw : w.CachePool) (a : Args) : (HS.opState w a).1.CachePool := by
+  unfold HS.opState
+  refine cache_withMap hw fun n m hn hget => ?_
+  op_split
+  all_goals cache_leaf
+
+theorem CachePool.opBad {w : World} (hw : w.CachePool) (a : Args) : (HS.opBad w a).1.CachePool := by
+  unfold HS.opBad
+  refine cache_withMap hw fun n m hn hget => ?_
+  op_split
+  all_goals cache_leaf
+
+theorem CachePool.opSop {w : World} (hw : w.CachePool) (a : Args) : (HS.opSop w a).1.CachePool := by
+  unfold HS.opSop
+  refine cache_withMap hw fun n m hn hget => ?_
+  cases hin : a.flag "inplace" <;> simp only [↓reduceIte, Bool.false_eq_true, Bool.false_and, Bool.true_and]
+  all_goals op_split
+  all_goals cache_leaf
+
+theorem CachePool.opGeom {w : World} (hw : w.CachePool) (a : Args) : (HS.opGeom w a).1.CachePool := by
+  unfold HS.opGeom
+  refine cache_withMap hw fun n m hn hget => ?_
+  op_split
+  all_goals first
+    | cache_leaf
+    | (rename_i _ v hv
+       obtain ⟨x, _, hu⟩ := except_bind_ok hv
+       exact hw.put _ (cacheNone_apiUpdateRanges hu))
+
+/-- `n_valid`: the only operation that fills a cache — for an owning map, with the count of the
+    storage it stores -/
+theorem CachePool.opNvalid {w : World} (hw : w.CachePool) (a : Args) : (HS.opNvalid w a).1.CachePool := by
+  unfold HS.opNvalid
+  refine cache_withMap hw fun n m hn hget => ?_
+  op_split
+  rename_i hv
+  have hv' : m.view = none := by
+    cases h : m.view with
+    | none => rfl
+    | some x => rw [h] at hv; exact absurd rfl hv
+  rw [World.put_eq_bind (show ({ m with cache := some (nValid m.vc m.st) } : MapObj).view = none from hv')]
+  exact hw.bind _ (MapObj.cacheFresh_counted m)
+
+theorem CachePool.opDrop {w : World} (hw : w.CachePool) (a : Args) : (HS.opDrop w a).1.CachePool := by
+  unfold HS.opDrop
+  op_split
+  exact ⟨fun e he hev => hw.1 e (List.mem_filter.1 he).1 hev,
+    fun e he hev => hw.2 e (List.mem_filter.1 he).1 hev⟩
+
+theorem CachePool.opReset {w : World} (a : Args) : (HS.opReset w a).1.CachePool := World.cachePool_empty
+
+/-! ### one protocol step, any history -/
+
+theorem CachePool.stepArgs {w : World} (hw : w.CachePool) (op : String) (a : Args) :
+    (HS.stepArgs w op a).1.CachePool := by
+  unfold HS.stepArgs
+  split
+  all_goals with_reducible first
+    | exact hw
+    | exact CachePool.opReset a
+    | exact CachePool.opCfg hw a
+    | exact CachePool.opMop hw a
+    | exact CachePool.opMocread hw a
+    | exact CachePool.opRead hw a
+    | exact CachePool.opDor hw a
+    | exact CachePool.opFromhp hw a
+    | exact CachePool.opHpxread hw a
+    | exact CachePool.opCovread hw a
+    | exact CachePool.opFitsraw hw a
+    | exact CachePool.opCat hw a
+    | exact CachePool.opHpximplicit hw a
+    | exact CachePool.opRand hw a
+    | exact CachePool.opUpd hw a
+    | exact CachePool.opUpdr hw a
+    | exact CachePool.opMask hw a
+    | exact CachePool.opAstype hw a
+    | exact CachePool.opPack hw a
+    | exact CachePool.opBop hw a
+    | exact CachePool.opInv hw a
+    | exact CachePool.opBits hw a
+    | exact CachePool.opCopy hw a
+    | exact CachePool.opDeg hw a
+    | exact CachePool.opUpg hw a
+    | exact CachePool.opSingle hw a
+    | exact CachePool.opScov hw a
+    | exact CachePool.opSet hw a
+    | exact CachePool.opFracdet hw a
+    | exact CachePool.opChk hw a
+    | exact CachePool.opInfo hw a
+    | exact CachePool.opMoc hw a
+    | exact CachePool.opMeta hw a
+    | exact CachePool.opGetmeta hw a
+    | exact CachePool.opWrite hw a
+    | exact CachePool.opGenhp hw a
+    | exact CachePool.opInterp hw a
+    | exact CachePool.opHpxwrite hw a
+    | exact CachePool.opVals hw a
+    | exact CachePool.opGet hw a
+    | exact CachePool.opValid hw a
+    | exact CachePool.opCovmap hw a
+    | exact CachePool.opVpsc hw a
+    | exact CachePool.opCovmask hw a
+    | exact CachePool.opDump hw a
+    | exact CachePool.opState hw a
+    | exact CachePool.opBad hw a
+    | exact CachePool.opSop hw a
+    | exact CachePool.opGeom hw a
+    | exact CachePool.opNvalid hw a
+    | exact CachePool.opDrop hw a
+
+theorem CachePool.step {w : World} (hw : w.CachePool) (line : String) : (HS.step w line).1.CachePool := by
+  unfold HS.step
+  simp only
+  split
+  · exact hw
+  · split
+    · exact hw
+    · exact CachePool.stepArgs hw _ _
+
+/-- **every protocol line preserves the strengthened world invariant** -/
+theorem Good2.step {w : World} (hw : w.Good2) (line : String) : (HS.step w line).1.Good2 :=
+  ⟨Good.step hw.1 line, CachePool.step hw.2 line⟩
+
+theorem Good2.foldl_step {w : World} (hw : w.Good2) (lines : List String) :
+    (lines.foldl (fun w l => (HS.step w l).1) w).Good2 := by
+  induction lines generalizing w with
+  | nil => exact hw
+  | cons l ls ih => exact ih (Good2.step hw l)
+
+/-- **every world reachable by a protocol history satisfies `Good2`** -/
+theorem Good2.runLines (lines : List String) : (HS.runLines lines).Good2 :=
+  Good2.foldl_step ⟨World.good_empty, World.cachePool_empty⟩ lines
+
+/-! ### what `n_valid` answers -/
+
+/-- the answer of `nvalid` for a name that resolves to `m` (an owning map or a view): the number
+    of valid cells of `m`'s current storage — except the one special case of the string path of a
+    bit-packed map whose count was never computed, which answers `nocount` -/
+theorem nvalid_answer {w : World} (hw : w.CachePool) {a : Args} {n : String} {rest : List String}
+    {m : MapObj} (ha : a.pos = n :: rest) (h : w.get? n = some m) :
+    (HS.opNvalid w a).2 =
+      if (m.cache.isNone && (a.get? "path" == some "str" && m.kind == .packed)) = true then "nocount"
+      else toString (nValid m.vc m.st) := by
+  have hf := hw.get h
+  unfold HS.opNvalid withMap
+  rw [ha]
+  simp only [h]
+  cases hc : m.cache with
+  | some k => simp [hf k hc]
+  | none =>
+    simp only [Option.isNone_none, Bool.true_and]
+    split
+    · rfl
+    · split <;> rfl
+
+/-- the protocol operation `nvalid` is `opNvalid` -/
+theorem stepArgs_nvalid (w : World) (a : Args) : HS.stepArgs w "nvalid" a = HS.opNvalid w a := rfl
+
+/-! ### regression / non-vacuity (evaluated by the compiler: the kernel cannot run the string parser) -/
+
+/-- the answers of a history -/
+def answers (lines : List String) : List String :=
+  (lines.foldl (fun (wo : World × List String) l => ((HS.step wo.1 l).1, wo.2 ++ [(HS.step wo.1 l).2]))
+    ({}, [])).2
+
+/-- an owning map: the count is cached by the first query, answered from the cache by the second,
+    reset by the update, recomputed by the third -/
+def exCacheOwning : List String := [
+  "cfg m kind=plain dtype=i4 covord=0 spord=1",
+  "upd m pix=5 val=3",
+  "nvalid m",
+  "nvalid m",
+  "upd m pix=6,40 vals=4,5",
+  "nvalid m"]
+
+#guard answers exCacheOwning == ["ok", "ok", "1", "1", "ok", "3"]
+#guard (HS.runLines (exCacheOwning.take 4)).pool.map (fun e => (e.1, e.2.cache)) == [("m", some 1)]
+#guard (HS.runLines (exCacheOwning.take 5)).pool.map (fun e => (e.1, e.2.cache)) == [("m", none)]
+#guard (HS.runLines exCacheOwning).pool.all fun e => decide e.2.CacheFresh
+
+/-- (finding, before the repair the second `nvalid v` answered the stale `1`) the parent is
+    written between two queries of a view -/
+def exStaleView : List String := [
+  "cfg m kind=rec covord=0 spord=1 fields=i2,f8 primary=0",
+  "upd m pix=5 vals=r3;2",
+  "single m field=1 r=v",
+  "nvalid v",
+  "upd m pix=6 vals=r4;7",
+  "nvalid v",
+  "nvalid m"]
+
+#guard answers exStaleView == ["ok", "ok", "ok", "1", "ok", "2", "2"]
+
+/-- (finding, before the repair the second `nvalid v1` answered the stale `2`) another view of the
+    same field unsets a cell (writes the field's sentinel) between two queries of a view -/
+def exStaleView2 : List String := [
+  "cfg m kind=rec covord=0 spord=1 fields=i2,f8 primary=0",
+  "upd m pix=5,6 vals=r3;2,r4;7",
+  "single m field=1 r=v1",
+  "single m field=1 r=v2",
+  "nvalid v1",
+  "upd v2 pix=6 val=-1637499999999999923489519697920",
+  "nvalid v1",
+  "nvalid v2",
+  "nvalid m"]
+
+#guard answers exStaleView2 == ["ok", "ok", "ok", "ok", "2", "ok", "1", "1", "2"]
+
+example : (HS.runLines exCacheOwning).Good2 ∧ (HS.runLines exStaleView).Good2 ∧
+    (HS.runLines exStaleView2).Good2 := ⟨Good2.runLines _, Good2.runLines _, Good2.runLines _⟩
 
 end HS
